@@ -558,12 +558,13 @@ SHARED = {
     "C06": [("c04", "r04_8_queries_are_used"), ("c02", "r02_5_leap_decisions")],
     "C18": [("c12", "r12_2_3_eq_hash_fields")],
     "C12": [("c09", "r09_12_months_between_is_checked_by_addition")],
-    "C16": [("c01", "r01_11_trusted_packings")],
-    "C09": [("c01", "r01_11_trusted_packings")],
-    "C11": [("c03", "r03_11_trusted_instants")],
+    "C16": [("c01", "r01_11_trusted_packings"), ("c10", "r10_14_borrow_and_carry_use_the_right_year")],
+    "C09": [("c01", "r01_11_trusted_packings"), ("c10", "r10_14_borrow_and_carry_use_the_right_year")],
+    "C11": [("c03", "r03_11_trusted_instants"), ("c10", "r10_14_borrow_and_carry_use_the_right_year")],
     "C15": [("c03", "r03_11_trusted_instants")],
     "C07": [("c08", "r08_7_embedded_fields"), ("c17", "r17_8_variable_precision_predicates"), ("c08", "r08_10_field_set_tests"), ("c17", "r17_7_sign_predicates")],
     "C05": [("c01", "r01_cfp_calendar_free_productions")],
+    "C10": [("c03", "r03_6_rounding_helpers_exact")],
 }
 
 
